@@ -30,6 +30,8 @@ def run_one(prop: str, tier: str, root: str, evidence_dir: str) -> int:
         ctx = Ctx(root, tier)
         mod.run(ctx, rep)
         rep.analysed.update(ctx.analysed())
+        if tier == "thorough":
+            thorough_extras(prop, mod, root, rep)
         return rep.finish(load_known(), evidence_dir)
     except AnalysisError as e:
         print(f"ANALYSIS-ERROR property={prop} {e}")
@@ -38,6 +40,62 @@ def run_one(prop: str, tier: str, root: str, evidence_dir: str) -> int:
         traceback.print_exc()
         print(f"ANALYSIS-ERROR property={prop} checker raised (see traceback)")
         return 2
+
+
+def thorough_extras(prop: str, mod, root: str, rep: Report) -> None:
+    """Thorough tier: (a) recompute every automata obligation over the un-merged 128+4 character alphabet -- an independent
+    computation that must agree; (b) validate the analyser's regex model against the real `re` engine on the shipped pattern
+    constants (exercises the stdlib on constants, never repository code; disagreement = tool broken, exit 2); (c) adequacy:
+    run the quick check on scratch copies with each seeded change of this property applied (informational only)."""
+    import glob
+    import importlib.util
+    import shutil
+    import subprocess
+    import tempfile
+
+    from sa import rx
+    from sa.context import Ctx
+    from sa.rules import lang
+
+    if lang.IMPLS:
+        impls = list(lang.IMPLS)
+        keys1 = sorted(f.key() for f in rep.findings())
+        rx.set_merge(False)
+        try:
+            lang._CACHE.clear()
+            rep2 = Report(prop, "thorough", rep.level, root)
+            mod.run(Ctx(root, "quick"), rep2)
+            keys2 = sorted(f.key() for f in rep2.findings())
+        finally:
+            rx.set_merge(True)
+            lang._CACHE.clear()
+        if keys1 != keys2:
+            raise AnalysisError(f"automata verdicts differ between the merged-atom and the un-merged alphabet: {set(keys1) ^ set(keys2)}")
+        rep.extra["unmerged_alphabet_recomputation"] = {"agrees": True, "obligations": sum(len(r.instances) for r in rep2.rules)}
+        sys.path.insert(0, os.path.join(VERIF, "selftest"))
+        import rx_validate as rv  # importable by name so that its worker processes can unpickle their tasks
+        n, dis = rv.validate(impls, 5)
+        if dis:
+            raise AnalysisError(f"regex model disagrees with the real engine on {dis} string(s): analyser broken")
+        rep.extra["traces_validated_against_impl"] = n
+        rep.extra["model_validation"] = f"ordered-thread simulation vs re on all strings up to length 5 over the extended atom alphabet of {len(impls)} shipped pattern(s): {n} strings, 0 disagreements"
+    seeded = sorted(glob.glob(os.path.join(VERIF, "seeded", f"{prop}-*")))
+    out = {}
+    for d in seeded:
+        tmp = tempfile.mkdtemp(prefix="adequacy-", dir="/tmp")
+        try:
+            shutil.copytree(os.path.join(root, "chartparse"), os.path.join(tmp, "chartparse"))
+            pr = subprocess.run(f"patch -p1 -s < {d}/patch.diff", shell=True, cwd=tmp, capture_output=True, text=True)
+            if pr.returncode:
+                out[os.path.basename(d)] = "patch does not apply to this tree"
+                continue
+            rc = subprocess.run([os.path.join(VERIF, "check"), prop, "--tier", "quick", "--root", tmp, "--evidence-dir", os.path.join(tmp, "ev")],
+                                cwd=VERIF, capture_output=True, text=True).returncode
+            out[os.path.basename(d)] = {0: "MISSED", 1: "detected", 2: "analysis-error"}.get(rc, str(rc))
+        finally:
+            shutil.rmtree(tmp, ignore_errors=True)
+    if out:
+        rep.extra["seeded_change_adequacy_informational"] = out
 
 
 def explain(path: str) -> int:
